@@ -41,13 +41,13 @@ def ang_close(a, b, tol_deg=1e-7):
 
 def run(ctx):
     rng = ctx.rng
-    nbase = ctx.n(12, 260)
+    nbase = ctx.n(12, 150)
     bases = []
     cases = []
     for bi in range(nbase):
-        grid = G.gen_grid(rng, uniform_dirs=True, nd_choices=(16, 24, 36))
+        grid = G.gen_grid(rng, uniform_dirs=True, nd_choices=(16, 24, 36), nf_range=(8, 16))
         if bi < 3:
-            grid = G.gen_grid(rng, uniform_dirs=True, nd_choices=((16, 24, 36)[bi],))
+            grid = G.gen_grid(rng, uniform_dirs=True, nd_choices=((16, 24, 36)[bi],), nf_range=(8, 16))
         N = len(grid["dir"])
         step = 360.0 / N
         windkind = rng.choice(["u10", "u10", "u10", "friction_velocity"])
@@ -395,8 +395,25 @@ def run(ctx):
     ctx.extra["max_relative_deviation_model_vs_impl"] = G.MAXDEV[0]
 
 
-READY = False
-LEVEL_TEXT = "in progress"
-LEVEL_NOTE = "in progress"
+READY = True
+LEVEL_TEXT = ("Theorems (Coq, every uniform direction grid theta_j = th0 + j 2pi/N with constant bin width, every N, every "
+              "k < N, every spectrum/wind/depth/roughness/parameter set): turning spectrum and wind by k bins shifts the ST4 "
+              "wind-input field, the ST4 dissipation field (band-integrated saturation over +-width with the wrapped mutual "
+              "angle, its row maximum, cumulative term with wave-speed vector differences) and the ST6 dissipation field by k "
+              "bins; bulk rates are invariant; the resolved stress, the WAM tail stress and the total stress vector rotate by "
+              "alpha = k 360/N (magnitude invariant, direction in [0,360) with cos/sin equal to those of direction + alpha); the "
+              "dissipation-weighted wave direction turns by alpha; the stress-balance function whose root is the roughness "
+              "length is pointwise the same function, so any extensional solver returns the same roughness. Mirror versions "
+              "(th0 = 0, j -> (N-j) mod N, wind direction negated): fields mirrored, bulk invariant, north component negated, "
+              "directions negated. Proof technique: cyclic re-indexing of finite sums + angle addition + atan2 specification. "
+              "Every run checks the relation on the real code (implementation(original) vs implementation(rotated) for every "
+              "k and the mirror, N in {16,24,36}) and compares the extracted model with the implementation on the original, "
+              "two rotations and the mirror.")
+LEVEL_NOTE = ("Equalities hold in R; on floats the relation is checked at 1e-9 (solver outputs at solver tolerance). Not proved: "
+              "the roughness / wind-inversion solvers themselves (only extensionality of the function they are applied to); the "
+              "estimated wind speed/direction relation is checked on the implementation only where the inversion returns a "
+              "finite value. Where the roughness iteration does not converge for one of the two inputs its NaN/last-iterate "
+              "outcome is decided by rounding and is not compared (counted in the evidence). The root x0 of the WAM "
+              "critical-height equation is an input of the model. Standard-library real-number axioms only.")
 TECHNIQUE = "Coq proof (cyclic re-indexing + angle addition) + relation check implementation(original) vs implementation(rotated) + extracted-model correspondence"
 DESIGN_REF = "DESIGN.md section 5 C09"
